@@ -31,6 +31,9 @@ type GOp struct {
 	// resumable: chunk plan; nil = one chunk with the whole payload
 	Chunks []GChunk `json:"chunks,omitempty"`
 	No308  bool     `json:"no308,omitempty"`
+	// RetryFinal: when the upload is rejected, the client sends its final request once more (same session for a
+	// resumable upload): the answer must again not be a success and nothing may be stored
+	RetryFinal bool `json:"retry_final,omitempty"`
 	// a step run between the initiation of a resumable upload and its first chunk
 	Between   *GOp            `json:"between,omitempty"`
 	PatchBody json.RawMessage `json:"patch,omitempty"`
@@ -559,6 +562,8 @@ func (w *gcsWorld) stepUpload(o *GOp) (string, string) {
 	}
 	defer func() { gcs.GzipMembers = 1 }()
 	var final gcs.HTTPResp
+	var lastReq gcs.HTTPReq
+	haveLast := false
 	switch o.Proto {
 	case "media":
 		final = w.do(gcs.ReqUploadMedia(o.Bucket, o.Name, o.Data, o.Meta, conds, o.Gzip))
@@ -617,7 +622,9 @@ func (w *gcsWorld) stepUpload(o *GOp) (string, string) {
 					recv = append(recv[:ch.Lo], body...)
 				}
 			}
-			resp := w.do(gcs.ReqResumableChunk(session, body, cr, o.No308, o.Gzip))
+			lastReq = gcs.ReqResumableChunk(session, body, cr, o.No308, o.Gzip)
+			haveLast = true
+			resp := w.do(lastReq)
 			if resp.Panic != "" {
 				return fail("panic", "panic: %s", resp.Panic)
 			}
@@ -670,6 +677,15 @@ func (w *gcsWorld) stepUpload(o *GOp) (string, string) {
 	if final.Status >= 400 {
 		if e := checkErrBody(final); e != "" {
 			return fail("errbody", "%s", e)
+		}
+	}
+	if o.RetryFinal && !exp.Performed && haveLast {
+		r2 := w.do(lastReq)
+		if r2.Panic != "" {
+			return fail("panic", "panic on the re-sent final request: %s", r2.Panic)
+		}
+		if r2.Status/100 == 2 && r2.Header.Get("X-Http-Status-Code-Override") == "" {
+			return fail("retry", "the upload was rejected with %d, the same final request sent again is answered %d", final.Status, r2.Status)
 		}
 	}
 	if exp.Performed {
